@@ -10,7 +10,10 @@ from harness.project import ProjectionError, sval
 STACK_PROPS = ("offset", "column", "length", "bpm", "metronome")
 
 
-def proj_lists(m):
+NAN = -2000000000          # projection of NaN where a history assigns it on purpose
+
+
+def proj_lists(m, nan_ok=False):
     out = []
     for name, lst in m.objs.items():
         df = lst.df
@@ -22,6 +25,9 @@ def proj_lists(m):
             for c in cols:
                 if c in STACK_PROPS:
                     f = float(r[c])
+                    if nan_ok and f != f:
+                        v[c] = NAN
+                        continue
                     if not math.isfinite(f):
                         raise ProjectionError(f"{name}.{c} is {f}")
                     v[c] = int(round(f * 1000))
@@ -33,7 +39,11 @@ def proj_lists(m):
 
 def _apply(target, key, f):
     """target[key] op= value, as a user would write it."""
-    if f["kind"] == "add":
+    if f["kind"] == "setcols":
+        target[key] = [f["vals"][c] / 1000.0 for c in key[1]]       # one value per column, in the order the columns are named
+    elif f["kind"] == "set" and f["c"] == NAN:
+        target[key] = float("nan")
+    elif f["kind"] == "add":
         target[key] += f["c"] / 1000.0
     elif f["kind"] == "mul":
         target[key] *= f["c"]
@@ -80,6 +90,7 @@ def run_history(m, hist, rid, game, inc_types=None, r=None):
         rec = {"id": f"{rid}/{n}", "op": op, "cls": f"{game}.{op}", "game": game, "exc": "", "stale": not fresh,
                "inc": inc_positions(), "f": h["f"], "pre": [], "post": []}
         try:
+            nan_ok = h["f"].get("c") == NAN
             rec["pre"] = proj_lists(m)
             if op == "set":
                 rec["p"] = h["p"]
@@ -93,7 +104,7 @@ def run_history(m, hist, rid, game, inc_types=None, r=None):
                 mask = np.array(rec["mask"], dtype=bool)
                 cols = rec["cols"][0] if len(rec["cols"]) == 1 and h.get("scalar_col", True) else rec["cols"]
                 _apply(stk.loc, (mask, cols), h["f"])
-            rec["post"] = proj_lists(m)
+            rec["post"] = proj_lists(m, nan_ok=nan_ok)
         except ProjectionError as e:
             rec["exc"] = "Projection:" + str(e)
         except Exception as e:
@@ -177,6 +188,18 @@ def _rand_hist(m, r, inc_types=None, nsteps=5):
         else:
             hist.append({"op": "edit", "list": r.randint(1, len(m.objs))})
             hist.append({"op": "stack"})
+    tail = r.random()
+    if tail < 0.2 and have and n and len(have) >= 2:
+        # several columns assigned a list of values, the columns named in an order of the caller's choosing
+        cols = r.sample(sorted(have), 2)
+        if r.random() < 0.5:
+            cols = sorted(cols, reverse=True)
+        hist.append({"op": "loc", "mask": [r.random() < 0.6 for _ in range(n)], "cols": cols, "scalar_col": False,
+                     "f": {"kind": "setcols", "c": 0, "vals": {cols[0]: 10000, cols[1]: 5000000}}})
+    elif tail < 0.35 and have and n:
+        # NaN written through (last step: nothing is computed on it afterwards)
+        hist.append({"op": "loc", "mask": [r.random() < 0.5 for _ in range(n)], "cols": [r.choice(sorted(have))], "f": {"kind": "set", "c": NAN},
+                     "scalar_col": True})
     return hist
 
 
@@ -201,11 +224,17 @@ def exec_random(scn):
             _shape_labels(m, r)
         ms_ = mapset_class(game)(maps=maps)
         stk = ms_.stack()
-        for step in range(r.randint(1, 3)):
+        for step in range(r.randint(2, 3)):
             have = set()
             for m in maps:
                 for l in m.objs.values():
                     have |= set(l.df.columns) & set(STACK_PROPS)
+            if step and r.random() < 0.6:
+                # history: a list is edited directly, then the set is stacked again
+                lst = next((l for m in maps for l in m.objs.values() if len(l)), None)
+                if lst is not None:
+                    lst.df.iloc[0, list(lst.df.columns).index("offset")] += 7.0
+                stk = ms_.stack()
             p = r.choice(sorted(have))
             f = r.choice([{"kind": "add", "c": 1000}, {"kind": "mul", "c": 2}])
             pres = []
